@@ -15,6 +15,7 @@ structure UpdPost (p : Prog) (s : State) (m : Nat) (r : State × Bool) : Prop wh
   ver : r.2 = true → (s.get m).ver < (r.1.get m).ver
   obsD : ∀ o, s.obs = some o → (s.get o).kind = .eff → (r.1.get o).dirty = true →
     (s.get o).dirty = true ∨ ∃ y ∈ (s.get o).sources, y ≠ m ∧ (s.get y).ver < (r.1.get y).ver
+  valCh : ValCh s r.1
 
 def UpdOK (p : Prog) (u : State → Nat → State × Bool) (f : Nat) : Prop :=
   ∀ s x, InvR p s → x < f → (s.get x).running = false → (∀ r, (s.get r).running = true → x < r) →
@@ -29,15 +30,17 @@ structure EvalPost (p : Prog) (s s' : State) (m : Nat) (L : List (Nat × Int × 
   subs : (s'.get m).subs = (s.get m).subs
   ver : (s'.get m).ver = (s.get m).ver
   seen : (s'.get m).seen = (s.get m).seen ++ L
+  valCh : ValCh s s'
 
 theorem EvalPost.refl {p : Prog} {s : State} {m : Nat} (h : InvR p s) (hl : RunLoc s m) :
     EvalPost p s s m [] :=
-  ⟨h, hl, Frame.refl s _, fun _ => rfl, rfl, rfl, by simp⟩
+  ⟨h, hl, Frame.refl s _, fun _ => rfl, rfl, rfl, by simp, ValCh.of_val_eq (fun _ => rfl)⟩
 
 theorem EvalPost.trans {p : Prog} {s s1 s2 : State} {m : Nat} {L1 L2}
     (h1 : EvalPost p s s1 m L1) (h2 : EvalPost p s1 s2 m L2) : EvalPost p s s2 m (L1 ++ L2) :=
   ⟨h2.inv, h2.loc, h1.frame.trans h2.frame, fun i => (h2.running i).trans (h1.running i),
-   h2.subs.trans h1.subs, h2.ver.trans h1.ver, by rw [h2.seen, h1.seen, List.append_assoc]⟩
+   h2.subs.trans h1.subs, h2.ver.trans h1.ver, by rw [h2.seen, h1.seen, List.append_assoc],
+   h1.valCh.trans h2.valCh h1.frame h2.frame (h1.loc.obs.trans (by rw [h2.loc.obs] at *; exact (h2.loc.obs.symm.trans h2.loc.obs).symm ▸ rfl))⟩
 
 /-- appending a ghost `seen` entry to the running node -/
 theorem appendSeen_inv {p : Prog} {s : State} {m : Nat} (h : InvR p s) (hm : m < s.nodes.length)
@@ -156,6 +159,7 @@ structure ReadPost (p : Prog) (s s2 : State) (m x : Nat) (v : Int) : Prop where
   ver_m : (s2.get m).ver = (s.get m).ver
   clean_x : (s2.get x).st = .clean
   val_x : (s2.get x).val = some v
+  valCh : ValCh s s2
 
 theorem readNode_spec {p : Prog} {u : State → Nat → State × Bool} {f : Nat} (hu : UpdOK p u f)
     {m : Nat} (hmf : m ≤ f) {s : State} (h : InvR p s) (hl : RunLoc s m) {x : Nat} (hx : x < m)
@@ -244,7 +248,7 @@ theorem rd_evalPost {p : Prog} {s s2 : State} {m x : Nat} {v : Int} (hl : RunLoc
     · rw [go i hi]
   have f2 : Frame s2 s' (m + 1) := by
     refine ⟨hlen, kE, fun i hi => ⟨by rw [stE]; exact hi, valE i⟩, fun i => by rw [verE]; exact Nat.le_refl _,
-      fun i _ => verE i, fun i hi => ?_, ?_, ?_, ?_⟩
+      fun i _ => verE i, fun i hi => ?_, ?_, ?_, ?_, ?_⟩
     · rw [go i (by omega)]; exact ⟨rfl, .inl rfl⟩
     · intro hl2 i hi
       rw [hlog, List.mem_append, List.mem_singleton] at hi
@@ -259,6 +263,11 @@ theorem rd_evalPost {p : Prog} {s s2 : State} {m x : Nat} {v : Int} (hl : RunLoc
       have him : i ≠ m := by
         intro e; subst e; rw [rp.kind_m, hl.kind] at hk; cases hk
       rw [go i him] at hd; exact .inl hd
+    · apply FlagRel.of_same
+      intro i
+      by_cases hi : i = m
+      · subst hi; rw [gm]; exact ⟨rfl, rfl, rfl⟩
+      · rw [go i hi]; exact ⟨rfl, rfl, rfl⟩
   refine ⟨hinv, ?_, rp.frame.trans f2, fun i => (runE i).trans (rp.running i), ?_, ?_, ?_⟩
   · refine ⟨hobs.trans (rp.obs.trans hl.obs), (kE m).trans (rp.kind_m.trans hl.kind), by rw [runE]; exact hr2,
       ?_, ?_, ?_⟩
